@@ -4,6 +4,7 @@
 //	classify      case (codec gopon ((channel payload) ...))        -> (kinds pushed)
 //	classify_flv  case (gopon ((tagtype timestamp data) ...))       -> (kinds pushed origs)
 //	flv_producer  see producer.go
+//	flv_viewers   see viewers.go
 //
 // kinds: per packet the slot the cache put it in, found by probing a cache pre-loaded with known
 // parameter-set packets and a key packet: 0 ignored, 1 appended to the GOP, 2 restarted the GOP
@@ -204,5 +205,6 @@ func Commands() map[string]func(Val) Val {
 		return L(L(kinds...), L(out...), L(origs...))
 	}
 	m["flv_producer"] = flvProducer
+	m["flv_viewers"] = flvViewers
 	return m
 }
